@@ -18,7 +18,7 @@
 (* is kept in v, one invariant per conjunct, so that TLC names the         *)
 (* conjunct and v.line is the rejected line.                               *)
 (***************************************************************************)
-EXTENDS Integers, Sequences, FiniteSets, TLC, Json, IOUtils
+EXTENDS Integers, Sequences, FiniteSets, TLC, Json, IOUtils, KeyOrder
 
 TraceLog == ndJsonDeserialize(IOEnv.TRACE)
 
@@ -32,22 +32,25 @@ AllOK == [line |-> 0, pre |-> TRUE, result |-> TRUE, size |-> TRUE, order |-> TR
           tree |-> TRUE, list |-> TRUE, fresh |-> TRUE, keys |-> TRUE]
 
 -----------------------------------------------------------------------------
-(* the key table: ranks must be in the mathematical order of the concrete keys *)
-RECURSIVE LexLess(_, _)
-LexLess(a, b) == IF b = <<>> THEN FALSE ELSE IF a = <<>> THEN TRUE
-                 ELSE IF a[1] # b[1] THEN a[1] < b[1] ELSE LexLess(Tail(a), Tail(b))
-Lower(c) == IF c \in 65..90 THEN c + 32 ELSE c
-Fold(s) == [i \in 1..Len(s) |-> Lower(s[i])]                   \* what strcasecmp compares
-IntLess(a, b) == \* [sign, high 16 bits, low 16 bits of the magnitude]
-    IF a[1] # b[1] THEN a[1] < b[1]
-    ELSE IF a[1] = 1 THEN LexLess(<<a[2], a[3]>>, <<b[2], b[3]>>) ELSE LexLess(<<b[2], b[3]>>, <<a[2], a[3]>>)
+(* The key table: the harness names keys by RANK 1..n and logs the concrete key of every rank.  The
+   contract SetMap orders keys as integers; that is the order of the comparator only if the table is
+   ascending in the mathematical order the comparator stands for.  That order is stated in KeyOrder.tla,
+   per stock comparator, over the logged representations, and TLC checks every logged table against it.
+
+   set_compare_charp is strcasecmp() in the C locale: the two strings are compared byte by byte (as
+   unsigned character codes) after mapping 'A'..'Z' (65..90) to 'a'..'z' (97..122) AND NOTHING ELSE; a
+   proper prefix is smaller.  So '@' (64) and '[' \ ']' '^' '_' '`' (91..96) are smaller than every letter,
+   '{' '|' (123, 124) are greater, no two of these characters are equal, and "" is the least key.      *)
 KeysAscending(L) ==
     /\ Len(L.keys) = L.n
     /\ \A i \in 1..(L.n - 1) :
          CASE L.cmp = "int"   -> IntLess(L.keys[i], L.keys[i + 1])
-           [] L.cmp = "charp" -> /\ LexLess(Fold(L.keys[i][1]), Fold(L.keys[i + 1][1]))
+           [] L.cmp = "charp" -> \* every spelling of rank i is below every spelling of rank i + 1
+                                 \A x \in 1..Len(L.keys[i]), y \in 1..Len(L.keys[i + 1]) :
+                                     StrCaseLess(L.keys[i][x], L.keys[i + 1][y])
            [] OTHER           -> LexLess(L.keys[i], L.keys[i + 1])
-    /\ L.cmp = "charp" => \A i \in 1..L.n : Fold(L.keys[i][1]) = Fold(L.keys[i][2])   \* spellings of one class are equal
+    /\ L.cmp = "charp" => \A i \in 1..L.n : \A x, y \in 1..Len(L.keys[i]) :
+                              StrCaseEqual(L.keys[i][x], L.keys[i][y])       \* spellings of one rank are ONE key
 
 -----------------------------------------------------------------------------
 (* structural audit of the raw links  nodes[j] = <<id, key, l, r, prev, next>>  (ids; 0 = NULL,
